@@ -354,7 +354,9 @@ def check_case(case):
                         pk = {k_: v_ for k_, v_ in kw.items()
                               if k_ != "executor"}
                         if cs is None:
-                            runner.run_combos(combos, constants={"k": 5}, **pk)
+                            # (that run also asked for a table)
+                            runner.run_combos(combos, constants={"k": 5},
+                                              to_df=True, **pk)
                         else:
                             # (argument names given for that run only, in
                             # the opposite order)
@@ -440,6 +442,10 @@ def check_case(case):
     ds = out
     import xarray as xr
 
+    if not isinstance(ds, (xr.Dataset, xr.DataArray)):
+        vio.append((key("output-type"), "expected a labelled Dataset, got a "
+                    "%s" % type(ds).__name__))
+        return fin(case, vio, len(settings))
     if isinstance(ds, xr.DataArray):
         # (a sweep of DataArray results gives a labelled DataArray)
         ds = ds.to_dataset(name=ds.name or "v")
